@@ -275,9 +275,16 @@ class Loader:
                         names = [t.id for t in (st.targets if isinstance(st, ast.Assign) else [st.target] if isinstance(st, ast.AnnAssign) else []) if isinstance(t, ast.Name)]
                         if val is None or not names:
                             continue
-                        is_cont = isinstance(val, (ast.List, ast.Dict, ast.Set, ast.ListComp, ast.DictComp, ast.SetComp)) or (
-                            isinstance(val, ast.Call) and (getattr(val.func, "id", None) or getattr(val.func, "attr", None)) in
-                            ("set", "list", "dict", "bytearray", "deque", "defaultdict", "OrderedDict", "Queue", "Counter"))
+                        def _cont(v):
+                            if isinstance(v, (ast.List, ast.Dict, ast.Set, ast.ListComp, ast.DictComp, ast.SetComp)):
+                                return True
+                            if isinstance(v, ast.Call) and (getattr(v.func, "id", None) or getattr(v.func, "attr", None)) in (
+                                    "set", "list", "dict", "bytearray", "deque", "defaultdict", "OrderedDict", "Queue", "Counter"):
+                                return True
+                            if isinstance(v, ast.BinOp) and isinstance(v.op, (ast.Add, ast.Mult, ast.BitOr)):
+                                return _cont(v.left) or _cont(v.right)
+                            return False
+                        is_cont = _cont(val)
                         if is_cont:
                             for nm in names:
                                 containers.setdefault(nm, set()).add(cls.name)
@@ -295,6 +302,33 @@ class Loader:
                                     out.add((t.value.id, t.attr))
                             elif isinstance(t, ast.Attribute) and isinstance(t.value, ast.Call) and isinstance(t.value.func, ast.Name) and t.value.func.id == "type":
                                 out.add(("*", t.attr))
+        # ... including through a local alias: `buf = Cls.attr` (no copy) followed by an in-place update of `buf`
+        for dp, dn, fn in os.walk(root):
+            for f in fn:
+                if not f.endswith(".py") or f.startswith("test_") or os.path.basename(dp) == "tests":
+                    continue
+                try:
+                    tree = ast.parse(open(os.path.join(dp, f)).read())
+                except SyntaxError:
+                    continue
+                for fdef in [n for n in ast.walk(tree) if isinstance(n, (ast.FunctionDef, ast.AsyncFunctionDef))]:
+                    alias = {}
+                    for n in ast.walk(fdef):
+                        if isinstance(n, ast.Assign) and isinstance(n.value, ast.Attribute) and n.value.attr in containers:
+                            for t in n.targets:
+                                if isinstance(t, ast.Name):
+                                    alias[t.id] = n.value.attr
+                    if not alias:
+                        continue
+                    for n in ast.walk(fdef):
+                        if isinstance(n, ast.Call) and isinstance(n.func, ast.Attribute) and n.func.attr in MUTATORS and isinstance(n.func.value, ast.Name) and n.func.value.id in alias:
+                            mutated.add(alias[n.func.value.id])
+                        tg = n.targets if isinstance(n, (ast.Assign, ast.Delete)) else [n.target] if isinstance(n, ast.AugAssign) else []
+                        for t in tg:
+                            if isinstance(t, ast.Subscript) and isinstance(t.value, ast.Name) and t.value.id in alias:
+                                mutated.add(alias[t.value.id])
+                            if isinstance(n, ast.AugAssign) and isinstance(t, ast.Name) and t.id in alias:
+                                mutated.add(alias[t.id])
         # a container created once in a class body and mutated in place anywhere is shared state with a history
         for nm, clss in containers.items():
             if nm in mutated:
